@@ -128,6 +128,10 @@ impl ZmtpEngine {
   pub fn record_activity(&mut self) {
     self.last_activity_time = Instant::now();
   }
+  /// verification hook: clock injection for the activity stamp (the engine stamps with
+  /// `Instant::now()`; a scripted timeline re-stamps with its own virtual time)
+  #[cfg(rzmq_verif)] pub fn verif_last_activity(&self) -> Instant { self.last_activity_time }
+  #[cfg(rzmq_verif)] pub fn verif_set_last_activity(&mut self, t: Instant) { self.last_activity_time = t; }
 
   pub fn buffer_len(&self) -> usize {
     self.network_read_accumulator.len()
